@@ -153,7 +153,9 @@ PATHS = [(None, None), ("/", "/"), ("/a b", "/a%20b"), ("/a;b", "/a%3Bb"), ("/é
 DOMAINS = [(None, None), ("example.com", "example.com"), (".example.com", "example.com"),
            ("example.com:80", "example.com"), ("bücher.example", "xn--bcher-kva.example"),
            ("localhost", "localhost")]
-MAX_AGES = [(None, None), (0, "0"), (60, "60"), (timedelta(minutes=2, microseconds=7), "120")]
+MAX_AGES = [(None, None), (0, "0"), (60, "60"), (timedelta(minutes=2, microseconds=7), "120"),
+            # boundary values (seed C13-3b): zero in every spelling, sub-second, negative
+            (timedelta(0), "0"), (timedelta(milliseconds=500), "0"), (-1, "-1")]
 EXPIRES = [(None, None), (T0, T0_TEXT), (int(T0.timestamp()), T0_TEXT), (T0.timestamp() + 0.0, T0_TEXT),
            (T0.replace(tzinfo=None), T0_TEXT),
            (T0.astimezone(timezone(timedelta(hours=2))), T0_TEXT),
@@ -221,6 +223,30 @@ def run_attr_case(R, case):
         if what:
             rec.update(header=h, expected_attrs=exp_attrs, what=what)
             R.violation("attrs:" + what, rec)
+            continue
+        if eexp is None and eage is not None:
+            # the same combination with sync_expires=True under the harness clock: Expires = clock + max_age
+            R.ev()
+            what2, h2 = attr_sync_problem(case, v)
+            R.use("attrs-sync")
+            if what2:
+                R.violation("attrs-sync:" + what2, {"kind": "attrs-sync", "value": v,
+                                                    "case": [pi, di, ai, ei, se, ho, si, pa], "header": h2,
+                                                    "what": what2})
+
+
+def attr_sync_problem(case, v):
+    pi, di, ai, ei, se, ho, si, pa = case[:8]
+    age, eage = MAX_AGES[ai]
+    try:
+        with owned_clock():
+            h = dump_cookie("k", v, max_age=age, expires=None, path=PATHS[pi][0], domain=DOMAINS[di][0], secure=se,
+                            httponly=ho, samesite=SAMESITES[si][0], partitioned=pa, sync_expires=True)
+    except Exception as e:  # noqa: BLE001
+        return "exception:" + type(e).__name__, repr(e)
+    res = [attr_problem(v, h, expected_attrs(DOMAINS[di][1], w, eage, se, ho, PATHS[pi][1], SAMESITES[si][1], pa))
+           for w in _plus(int(eage))]
+    return (None if None in res else res[0]), h
 
 
 def attr_problem(v, h, exp_attrs):
@@ -368,7 +394,7 @@ def _plus(seconds):
 
 # ---- SY: sync_expires with the owned clock (max_age given, expires absent -> Expires = clock + max_age)
 SYNC_AGES = [(0, 0), (60, 60), (timedelta(minutes=2, microseconds=7), 120), (-1, -1), (86400 * 400, 86400 * 400),
-             (1, 1)]
+             (1, 1), (timedelta(0), 0), (timedelta(milliseconds=500), 0), (timedelta(seconds=-2), -2)]
 SYNC_VIA = ["dump_cookie", "Response.set_cookie"]
 
 
@@ -912,7 +938,7 @@ def finalize(R, tier):
         need |= {f"exp:{i}" for i in range(len(EXPIRES))} | {f"ss:{i}" for i in range(len(SAMESITES))}
     need |= {f"age:{i}" for i in range(len(MAX_AGES))}
     need |= {"r2:" + k for k in R2} | {"sync:explicit", "sync:clock", "resp:delete", "resp:set", "resp:set+delete",
-                                        "msz:0", "msz:1", "msz:4093", "samesite:refused", "scope:sent",
+                                        "msz:0", "msz:1", "msz:4093", "samesite:refused", "attrs-sync", "scope:sent",
                                         "scope:withheld", "pairs", "sweepx"}
     need |= {"tchar:" + c for c in TCHARS} | {"cls:%d" % i for i in range(len(MC_CLS))} | {"parser:0", "parser:1"}
     need |= {"sep:%d" % i for i in range(1, len(MC_SEPS))}
@@ -971,6 +997,9 @@ def replay(rec):
             return True, f"dump_cookie raised {e!r}"
         what = attr_problem(v, h, exp_attrs)
         return bool(what), f"header   = {h!r}\nexpected attributes = {exp_attrs}\nproblem  = {what}"
+    if k == "attrs-sync":
+        what, h = attr_sync_problem(tuple(rec["case"]), rec["value"])
+        return bool(what), f"sync_expires=True under the harness clock {_FakeDT.fixed}: header={h!r} problem={what}"
     if k == "jar":
         R = core.Recorder()
         jar_case(R, rec["key"], rec["value"], rec["kw"])
